@@ -57,10 +57,28 @@ def main():
         except MonitorAbort as e:
             res = {"verdict": "violated", "sig": "monitor-abort",
                    "why": "MonitorAbort: %s" % e}
-        except Exception:
-            res = {"verdict": "inconclusive", "sig": "harness-error",
-                   "nontrivial": False,
-                   "why": "harness error: " + traceback.format_exc()[-1500:]}
+        except Exception as exc:
+            # An exception that escapes a workload: if it was raised inside the library under
+            # test (innermost frame in $VERIF_REPO_DIR/sigpy) on an input the workload considers
+            # valid, that is a failure of the library - every workload catches the rejections
+            # it expects, and none escapes on the unchanged tree.  Anything else is a harness
+            # error (inconclusive).
+            inn = exc
+            while inn.__cause__ is not None:
+                inn = inn.__cause__
+            tb = traceback.extract_tb(inn.__traceback__)
+            repo = os.path.join(os.environ.get("VERIF_REPO_DIR", "/repo"), "sigpy")
+            if tb and tb[-1].filename.startswith(repo):
+                res = {"verdict": "violated", "sig": "library-raised",
+                       "mech": "library-raised:" + type(inn).__name__,
+                       "why": "the library raised %s: %s (at %s:%d) on an input the workload "
+                              "treats as valid" % (type(inn).__name__, str(inn)[:200],
+                                                   tb[-1].filename[len(repo) + 1:], tb[-1].lineno),
+                       "witness": {"case": {k: v for k, v in case.items() if k != "rs"}}}
+            else:
+                res = {"verdict": "inconclusive", "sig": "harness-error",
+                       "nontrivial": False,
+                       "why": "harness error: " + traceback.format_exc()[-1500:]}
         faulthandler.cancel_dump_traceback_later()
         if res.get("verdict") == "violated" and "nbcache-" in str(res.get("why", "")):
             # the JIT cache directory was disturbed from outside: infrastructure, not sigpy
